@@ -1,5 +1,5 @@
 """C05: e2fsck never alters healthy files (all repair modes, every directory size, every mapping size, summary-only damage)."""
-import os, json
+import os, json, re
 from vlib.common import *
 from vlib import fsweep
 from xck.image import Image
@@ -101,6 +101,9 @@ def djob(j):
         with open(p, 'wb') as f: f.write(data)
         rc, out = run([E2FSCK, '-fy', '-b', str(im.group_first_block(1)), '-B', str(im.bs), p], timeout=60)
     with open(p, 'rb') as f: after = f.read()
+    if rc == 8 and Image(fsweep.base_data(base)).groups == 1 and re.search(r'[Ss]uperblock|zero-length partition', out):
+        # a single-group filesystem has no backup superblock: with a damaged primary superblock (checksum) e2fsck has nothing to fall back on
+        return (mid, 'skip', 'no backup superblock exists', 1)
     if rc not in (0, 1):
         return (mid, 'bad', [('-fy', 'exit status %s' % rc, out[-400:])], 1)
     try:
@@ -169,10 +172,14 @@ def main(tier, only=None):
         res = pmap(djob, dj, chunksize=16)
         for (mid, st, bad, n), j in zip(res, dj):
             runs += n; ndj += 1
+            if st == 'skip': continue
             if st == 'nonconv' and mid in c01known:
                 continue            # the non-convergence itself is C01's recorded finding; files were preserved here
             for mode, what, det in (bad or []):
-                ck.violation('d/%s' % mid, {'base': j[1], 'parts': j[2], 'what': what, 'detail': det})
+                cls = None
+                if re.search(r'/gd\d+\.bg_flags=0x[0-9a-f]*[13579bdf](\+seal)?$', mid) and what.startswith('files changed'):
+                    cls = 'inode-uninit-flag-trusted'
+                ck.violation('d/%s' % mid, {'base': j[1], 'parts': j[2], 'what': what, 'detail': det, 'root_cause_class': cls})
         ck.part('d_summary_only_damage', mutants=ndj)
     ck.add(evaluations=runs, distinct_nontrivial=len(jobs) + ndj, states=len(jobs) + ndj, transitions=runs, traces_validated_against_impl=runs,
            rule='(a) every corpus image x 5 repair modes; (b) test directory holding the first n of a fixed name sequence (hard links), every n in 0..400, 2-3 sequences (short, 252-byte, mixed lengths), '
